@@ -131,6 +131,12 @@ Probe(kind, S, pick) ==
                           ELSE "mixed"]
   /\ UNCHANGED <<ver, held, ops>>
 
+\* A refresh that is given up before it completes (messages of its last round lost, everybody stops) is a stuttering
+\* step: no version is created and nobody's material changes.  It is not a disjunct of Next (it would only add
+\* self-loops); the driver performs such an attempt before some of the Refresh steps of a history and requires the
+\* key material OBJECTS to be what they were (klife: abortedRefresh).
+RefreshGivenUp == UNCHANGED vars
+
 Next ==
   \/ \E z \in RefPolys : IF Additive THEN RefreshAdd(z[2]) ELSE Refresh(z)
   \/ \E i \in Indices : Derive(i)
